@@ -204,7 +204,8 @@ func (evm *EVM) TransferAssetTx(caller ContractRef, addr common.Address, gas uin
 	if err != nil {
 		return nil, gas, err, nil
 	}
-	if amount == nil || senderEquity.Equity == nil || senderEquity.Equity.Cmp(big.NewInt(0)) <= 0 {
+	if amount == nil || amount.Sign() < 0 || senderEquity.Equity == nil || senderEquity.Equity.Cmp(big.NewInt(0)) <= 0 {
+		// a negative amount would move equity from the recipient to the sender
 		return nil, gas, ErrAssetEquity, nil
 	}
 	// get asset
